@@ -34,6 +34,10 @@ OBJECT_BUDGET = 1500
 def brute_objects(c, n: int) -> List[Any]:
     if isinstance(c, dg.G):
         return list(dg.trees(c.grammar, c.sym(), n))
+    from mc import domain_r as dr
+
+    if isinstance(c, dr.R):
+        return [dw.Word(w) for w in dr.brute_objects(c, n)]
     return [dw.Word(w) for w in dw.brute_objects(c, n)]
 
 
